@@ -1,22 +1,23 @@
 #!/bin/bash
 # integrate.sh <workspace> — merge a builder's branches into /verif and /repo (integration aid, run by hand).
 set -u
-WS=$1
+WS=$1; BR=${2:-ag}-$WS
 cd /verif
-echo "== repo commits on ag-$WS:"; git -C /repo log --oneline main..ag-$WS
-for c in $(git -C /repo rev-list --reverse main..ag-$WS); do
-  git -C /repo cherry-pick -x $c >/dev/null 2>&1 || { echo "CHERRY-PICK CONFLICT $c"; git -C /repo cherry-pick --abort; }
+echo "== repo commits on $BR:"; git -C /repo log --oneline main..$BR
+# `git cherry` marks with "-" the commits whose patch is already on main (another builder made the same repair)
+for c in $(git -C /repo cherry main $BR | awk '$1=="+"{print $2}'); do
+  git -C /repo cherry-pick -x $c >/dev/null 2>&1 || { echo "CHERRY-PICK CONFLICT $c $(git -C /repo show -s --format=%s $c | cut -c1-70)"; git -C /repo cherry-pick --abort; }
 done
-git merge -q --no-edit ag-$WS >/dev/null 2>&1
+git merge -q --no-edit $BR >/dev/null 2>&1
 # generated / integrator-owned files: keep ours, regenerate below
 for f in known_findings.txt MANIFEST.json check setup.sh harness/go.mod; do
   if git status --short | grep -q "^UU $f\|^AA $f"; then git checkout --ours $f 2>/dev/null; git add $f; fi
 done
 for f in $(git status --short | grep '^UU evidence/\|^AA evidence/' | awk '{print $2}'); do git checkout --theirs $f; git add $f; done
-git status --short | grep '^U\|^AA' && echo "MERGE CONFLICTS REMAIN"
+if git status --short | grep '^U\|^AA'; then echo "MERGE CONFLICTS REMAIN — resolve by hand, then: git add -A; git commit; re-run the tail of this script"; exit 1; fi
 ./tools/pkgsplit.sh >/dev/null; python3 tools/mkfindings.py >/dev/null; python3 tools/mkmanifest.py
 git add -A
-git -c core.editor=true commit -qm "Merge ag-$WS" 2>&1 | tail -2
+git -c core.editor=true commit -qm "Merge $BR" 2>&1 | tail -2
 # rewrite fix-commit hashes of the builder's branch to the cherry-picked ones on /repo main
 for c in $(git -C /repo log --format=%H main -30); do
   orig=$(git -C /repo show -s --format=%B $c | sed -n 's/.*cherry picked from commit \([0-9a-f]*\)).*/\1/p')
